@@ -4014,6 +4014,11 @@ coap_dispatch(coap_context_t *context, coap_session_t *session,
             session->recipient_ctx->initial_state == 0) {
           coap_log_warn("OSCORE: PDU could not be decrypted\n");
         }
+        if (sent && sent->pdu && sent->pdu->type == COAP_MESSAGE_CON &&
+            COAP_PROTO_NOT_RELIABLE(session->proto) && session->con_active) {
+          /* the request is given up: release its NSTART slot */
+          session->con_active--;
+        }
         coap_delete_node_lkd(sent);
         return;
       } else {
